@@ -394,6 +394,9 @@ func (c *Call) init(srcPath string, line int) {
 			if i = strings.LastIndexByte(c.RemoteSrcPath[:i], '/'); i != -1 {
 				c.DirSrc = c.RemoteSrcPath[i+1:]
 			}
+		} else {
+			// No directory at all, e.g. "<autogenerated>" or "_cgo_gotypes.go".
+			c.SrcName = c.RemoteSrcPath
 		}
 		if c.DirSrc == testMainSrc {
 			// Consider _test/_testmain.go as stdlib since it's injected by "go test".
